@@ -12,6 +12,9 @@
   in any key-sorted order — the order among equal keys is left open).
 -/
 import AcnProofs.Lemmas.StochasticProto
+import AcnProofs.Lemmas.StochasticDet
+import AcnProofs.Lemmas.StochasticStarve
+import AcnProofs.Lemmas.StochasticEventCore
 
 namespace Acn.C19
 open Acn Acn.Stoch
@@ -223,22 +226,99 @@ theorem stale_unplug_noop {s : Net} {hist : List Event} (h : Reached s hist) (x 
         rw [he] at this; cases this
       rw [if_neg hxz]
 
-/-
-  FULL STATEMENT (not proved): the result of a run depends only on the draws actually made —
-    (∀ k, k < s.draws → cs k = cs' k) → (Net.init …).run cs steps = .ok s → (Net.init …).run cs' steps = .ok s
-  Proved below: the model has no source of non-determinism other than the stream of draws (a run
-  is a function of stations, flag, steps and `cs`), each plug-in consults only the draw with
-  index `draws`, and draws are consumed one per non-queued arrival (`never_charged_counts`).
--/
-theorem deterministic_given_choices_partial (s : Net) (cs cs' : Nat → Nat) :
-    (∀ steps, (∀ k, cs k = cs' k) → s.run cs steps = s.run cs' steps) ∧
-    (∀ x, cs s.draws = cs' s.draws → s.plugin cs x = s.plugin cs' x) := by
-  constructor
-  · intro steps hk
-    have : cs = cs' := funext hk
-    rw [this]
-  · intro x hk
-    unfold Net.plugin
-    rw [hk]
+/-- Reproducibility: the result of a run depends on the stream of random choices only through
+    the draws actually made.  `draws` never decreases, and two streams that agree on the first
+    `s'.draws` entries give the same run (same final state, hence — applied to every prefix of
+    the steps — the same trace).  With `random.seed` fixed the draws are fixed. -/
+theorem deterministic_given_choices (cs cs' : Nat → Nat) (s s' : Net) (steps : List Step)
+    (hrun : s.run cs steps = .ok s') (hagree : ∀ k, s.draws ≤ k → k < s'.draws → cs k = cs' k) :
+    s.run cs' steps = .ok s' ∧ s.draws ≤ s'.draws :=
+  ⟨run_det cs cs' steps s s' hrun hagree, run_draws_mono cs steps s s' hrun⟩
+
+/-- the hypothesis is satisfiable non-trivially: streams that differ beyond the draws made -/
+example : ∃ cs cs' : Nat → Nat, cs ≠ cs' ∧ ∀ k, 0 ≤ k → k < 2 → cs k = cs' k :=
+  ⟨fun _ => 0, fun k => if k < 2 then 0 else 1, by
+    intro h; have := congrFun h 5; simp at this, by intro k _ hk; simp [hk]⟩
+
+/-- Starvation freedom.  Let `y` wait at position `i = s.waiting.idxOf y` in a reached state and
+    let the run continue with ANY steps (well-formed continuation).  (1) While `y` is still
+    waiting its position has dropped by at least the number of vacating events so far
+    (`vacCount`: unplug events of EVs that hold a station, and early departures).  (2) So after
+    `i + 1` vacating events `y` is no longer waiting; and if its own unplug event is not among
+    the steps (it did not depart first), it has been attached to a station. -/
+theorem starvation_free {s s' : Net} {hist : List Event} (h : Reached s hist) (cs : Nat → Nat)
+    (steps : List Step) (hwf : WFHist (hist ++ evProj steps)) (y : Sess) (hy : y ∈ s.waiting)
+    (hrun : s.run cs steps = .ok s') :
+    (y ∈ s'.waiting → s'.waiting.idxOf y + vacCount cs s steps ≤ s.waiting.idxOf y) ∧
+    (s.waiting.idxOf y + 1 ≤ vacCount cs s steps → y ∉ s'.waiting ∧
+      ((∀ e ∈ evProj steps, ¬(e.kind = .unplug ∧ e.sess = y)) → (s'.ev y).plugged = true)) := by
+  obtain ⟨hi, tr⟩ := reached_inv h
+  have hadv := run_advance cs y steps hist s s' hi tr hwf hy hrun
+  refine ⟨hadv, fun hv => ?_⟩
+  have hnw : y ∉ s'.waiting := fun hc => by have := hadv hc; omega
+  refine ⟨hnw, fun hstay => ?_⟩
+  obtain ⟨s'', hs'', hi', tr'⟩ := run_good cs steps hist s hi tr hwf
+  rw [hrun] at hs''; cases hs''
+  obtain ⟨ha, hd, _⟩ := (hi.mem_waiting y).1 hy
+  have ha' : (s'.ev y).arrived = true := by
+    rw [tr'.arrived_iff]
+    obtain ⟨a, ha1, hk⟩ := (tr.arrived_iff y).1 ha
+    exact ⟨a, List.mem_append_left _ ha1, hk⟩
+  have hd' : (s'.ev y).departed = false := by
+    by_contra hc
+    obtain ⟨a, ha1, hk, hs1⟩ := (tr'.departed_iff y).1 (by simpa using hc)
+    rcases List.mem_append.1 ha1 with ha1 | ha1
+    · have := (tr.departed_iff y).2 ⟨a, ha1, hk, hs1⟩
+      rw [hd] at this; cases this
+    · exact hstay a ha1 ⟨hk, hs1⟩
+  rw [hi'.plugged_iff]
+  refine ⟨ha', ?_⟩
+  cases hst : (s'.ev y).station with
+  | none => exact absurd ((hi'.mem_waiting y).2 ⟨ha', hd', hst⟩) hnw
+  | some st => rfl
+
+/-- a vacating event, concretely: the unplug of an EV that sits on the station named by its id -/
+example : vacOf { Net.init ["A"] true (fun _ => none) with
+      occ := fun _ => some "a", ev := fun _ => { station := some "A" }, waiting := ["b"] }
+    (.ev ⟨2, .unplug, "a"⟩) = 1 := by decide
+
+/-- End of a simulator run: for sessions with distinct ids, 0 ≤ arrival < departure and ANY
+    key-sorted processing order, after `horizon` (or more) periods of `simSteps` — every choice
+    stream, every `fully_charged` input, early departure on or off — the run has not raised,
+    nobody is waiting and no station is occupied. -/
+theorem all_gone_after_horizon (ss : List Session) (h : List Event) (hw : wellFormedB ss h = true)
+    (hpos : ∀ e ∈ h, 0 ≤ e.ts) (stations : List Station) (hn : stations.Nodup) (early : Bool)
+    (st0 : Sess → Option Station) (cs : Nat → Nat) (full : Nat → Sess → Bool) (n : Nat)
+    (hhor : horizon h ≤ n) :
+    ∃ s, (Net.init stations early st0).run cs (simSteps full 0 n h) = .ok s ∧
+      s.waiting = [] ∧ ∀ st, s.occ st = none := by
+  obtain ⟨s, hs, hreach, hev⟩ := wellFormed_protocol ss h hw stations hn early st0 cs full n
+  have hts : ∀ e ∈ h, e.ts < (n : Int) := by
+    intro e he; have := ts_lt_horizon h e he; omega
+  have h0 : h = [] ∨ 0 < n := by
+    cases h with
+    | nil => exact Or.inl rfl
+    | cons a t =>
+      right
+      have := hts a (by simp); have := hpos a (by simp); omega
+  rw [hev h0 hts] at hreach
+  exact ⟨s, hs, all_gone_at_end hreach (wellFormedB_complete hw)⟩
+
+/-- Tie to C01: what `Acn.C01.history_sorted` / `history_complete` prove about `event_history`
+    of the event loop (key-sorted; a permutation of the scenario's plug-in, unplug and recompute
+    events) implies C19's history hypothesis — using distinct ids and arrival < departure only,
+    not the per-station non-overlap clause of C01's `Valid`. -/
+theorem eventCore_history_wellFormed (cfg : EventCore.Cfg) (h : List Event)
+    (ids : (cfg.sessions.map (·.id)).Nodup) (ad : ∀ x ∈ cfg.sessions, x.arrival < x.departure)
+    (hsorted : h.Pairwise (fun a b => a.keyLe b = true))
+    (hcomplete : h.Perm (cfg.sessions.map EventCore.plugEv ++ cfg.sessions.map EventCore.unplugEv ++
+      cfg.recomputes.map EventCore.recEv)) : WFHist h :=
+  wfHist_of_eventCore cfg h ids ad hsorted hcomplete
+
+example : WFHist [⟨0, .plugin, "a"⟩, ⟨0, .recompute, "r"⟩, ⟨1, .plugin, "b"⟩, ⟨2, .unplug, "a"⟩,
+    ⟨2, .unplug, "b"⟩] :=
+  eventCore_history_wellFormed
+    { stations := ["S"], sessions := [⟨"a", "S", 0, 2⟩, ⟨"b", "S", 1, 2⟩], recomputes := [(0, "r")],
+      maxRecompute := none } _ (by decide) (by decide) (by decide) (by decide)
 
 end Acn.C19
